@@ -916,6 +916,8 @@ def make_dataset(rng, outdir, n_samples=3, n_loci=3, ploidies=(2, 4), max_snvs=5
         # SNV file keep the concrete base): a code that stands for the concrete base replaces about `iupac` of the bases
         codes = {"A": "RWM", "C": "YSM", "G": "RSK", "T": "YWK"}
         snv_pos = {(l.contig, p_) for l in loci for p_ in l.snv_positions}
+        if flank_snvs:          # the bases next to the targets carry variant records too (see snv_vcf_text): they keep their concrete base
+            snv_pos |= {(l.contig, q_) for l in loci for q_ in (l.start - 1, l.stop)}
         for c, seq in list(fasta_contigs.items()):
             t = list(seq)
             for i_ in range(len(t)):
